@@ -179,10 +179,9 @@ inline void comm::async(int dest, AsyncFunction fn, const SendArgs &...args) {
   YGM_VERIF_ORIGINATE(dest, next_dest, header_bytes, bytes);
 
   //
-  // Check if send buffer capacity has been exceeded
-  if (!m_in_process_receive_queue) {
-    flush_to_capacity();
-  }
+  // Check if send buffer capacity has been exceeded (also for sends issued by
+  // handlers: flush_send_buffer does not process receives while one runs)
+  flush_to_capacity();
 }
 
 template <typename AsyncFunction, typename... SendArgs>
@@ -197,10 +196,9 @@ inline void comm::async_bcast(AsyncFunction fn, const SendArgs &...args) {
   pack_lambda_broadcast(fn, std::forward<const SendArgs>(args)...);
 
   //
-  // Check if send buffer capacity has been exceeded
-  if (!m_in_process_receive_queue) {
-    flush_to_capacity();
-  }
+  // Check if send buffer capacity has been exceeded (also for sends issued by
+  // handlers: flush_send_buffer does not process receives while one runs)
+  flush_to_capacity();
 }
 
 template <typename AsyncFunction, typename... SendArgs>
